@@ -18,6 +18,7 @@ HARNESSES = [
     HC('h_apple64_12', 12, 'Apple arm64 (Darwin ABI)'),
     HC('h_light32_8', 8, 'light-call 2-4 on x86-32 (AsmJit only: internal consistency)'),
     HC('h_light64_8', 8, 'light-call 2-4 on x86-64 (AsmJit only: internal consistency)'),
+    Harness('shuffle', 'h_shuffle_probe', unwind=6, bounds='tbd', mem_gb=6, timeout=900),
     Harness('shuffle', 'h_shuffle_x64_gp2', unwind=8, bounds='tbd', mem_gb=6, timeout=900),
     Harness('shuffle', 'h_shuffle_x64_gp3', unwind=8, bounds='tbd', mem_gb=6, timeout=900),
     Harness('shuffle', 'h_shuffle_x64_gp4', unwind=8, bounds='tbd', mem_gb=6, timeout=900),
